@@ -40,6 +40,7 @@ func init() {
 			{ID: "C04.R11", Text: "what the tracker is told is what the library tracks: NewStream wires the consumer, client and metadata it was given into the stream unchanged (no decorator between the position writer and Consumer.TrackOffset)", Run: constructorWiring(wireStream)},
 			{ID: "C04.R12", Text: "a closed session's positions are forgotten: Stream.Close unconditionally replaces the position map and the dirty marks by fresh maps after the streams were closed — nothing of a vBucket handed to another member can be written by a later save", Run: closeResets},
 			{ID: "C04.R13", Text: "the position gauge is the tracked position: the descriptor is paired with the ranged offset's own SeqNo, uncapped (same rule as C16.R1)", Run: c16r1},
+			{ID: "C04.R14", Text: "the range the acknowledgement guard tests is exactly what the member owns: the assigned list is the contiguous chunk MemberNumber-1 of TotalMembers chunks (a sparse assignment would make first..last a hull over other members' vBuckets) (same rule as C09.R2)", Run: c09r2},
 			{ID: "C04.R4", Text: "the position map has no other writer (same rule as C01.R1)", Run: c01r1},
 		},
 	})
